@@ -229,4 +229,63 @@ central controller of every sub-formula with the one of the last enclosing formu
 def restrictCfg (spa : Space) (cfg : Config) : Config :=
   spa.map fun c => (c.name, (getSelection cfg c.name).getD [])
 
+/-! ## several formulas on the same catalogs
+
+The state of a selection lives in the `Controller` objects (`current_index`).  Every formula has
+its own `CentralController` (its space: the controllers of its catalogs), but formulas written
+with the same catalog objects share the controllers, which are also publicly mutable
+(`set_index`, `set_name`, `modify_controller`, `reset_selection`).  The state is therefore ONE
+function `St` for all formulas; `fs` lists the spaces of the formulas. -/
+
+inductive MOp where
+  /-- `f.configure_catalogs(cfg)` / `f.central_controller.set_configuration(cfg)` / `…_from_id` -/
+  | select (f : Nat) (cfg : Config)
+  /-- `f.select_expression(name, index)` / `f.central_controller.set_controller` -/
+  | setCtrl (f : Nat) (n : Name) (i : Int)
+  /-- an operator of `f.central_controller.prepare_operators()` applied to `cfg` -/
+  | apply (f : Nat) (o : Op) (cfg : Config) (step : Int) (choices : List Nat)
+  /-- `controller.set_index(i)` on the controller object itself (`reset_selection` = index 0) -/
+  | directIndex (c : Controller) (i : Int)
+  /-- `controller.set_name(v)` -/
+  | directName (c : Controller) (v : Name)
+  /-- `controller.modify_controller(step, circular)` -/
+  | directModify (c : Controller) (step : Int) (circular : Bool)
+
+def stepM (fs : List Space) (st : St) : MOp → Except Err St
+  | .select f cfg =>
+    match fs[f]? with
+    | none => .error .unknownController
+    | some sp => setConfiguration sp st cfg
+  | .setCtrl f n i =>
+    match fs[f]? with
+    | none => .error .unknownController
+    | some sp => setController sp st n i
+  | .apply f o cfg step ch =>
+    match fs[f]? with
+    | none => .error .unknownController
+    | some sp =>
+      match applyOp sp st o cfg step ch with
+      | .error e => .error e
+      | .ok (st', _, _) => .ok st'
+  | .directIndex c i =>
+    match setIndex c i with
+    | .error e => .error e
+    | .ok k => .ok (st.set c.name k)
+  | .directName c v =>
+    match setName c v with
+    | .error e => .error e
+    | .ok k => .ok (st.set c.name k)
+  | .directModify c step circular =>
+    match modifyController c (st c.name) step circular with
+    | .error e => .error e
+    | .ok (k, _) => .ok (st.set c.name k)
+
+/-- a history of operations on several formulas and on the controller objects -/
+def runM (fs : List Space) : St → List MOp → Except Err St
+  | st, [] => .ok st
+  | st, o :: t =>
+    match stepM fs st o with
+    | .error e => .error e
+    | .ok st' => runM fs st' t
+
 end Cat
